@@ -10,5 +10,6 @@ func (m *Manager) GetWAL() *wal.WAL {
 	m.mu.RLock()
 	defer m.mu.RUnlock()
 
-	return m.wal
+	// The pointer is swapped atomically by rotateWAL, which can run without m.mu
+	return m.getWAL()
 }
